@@ -241,6 +241,9 @@ func caseQSeq(cfg *RunCfg, st *Stats, w *CaseWriter, idx int) string {
 			budget += int64(q.Once())
 			q.Tick()
 			ops = append(ops, VS("tick"))
+			if q.Tokens() > q.Limit() {
+				st.Fail(idx, "over-capacity", fmt.Sprintf("after a refill tick the bucket holds %d tokens, capacity is %d", q.Tokens(), q.Limit()), strings.Join(ops, " "))
+			}
 		default:
 			nm := int32(1 + r.Intn(12))
 			niv := intervals[r.Intn(len(intervals))]
